@@ -24,16 +24,16 @@ CHECKS = {
             "text": "Conformance of the DL_POLY TABLE written by DLPoly_PairTabulation.write / writePotentials('DL_POLY') to the reference (exact field formats, energies then -r dV/dr at k*delpot, 4 per record) and of the divisible-by-four rejection on the API and factory routes (both target spellings). " + _W,
             "note": _N, "technique": "abstract interpretation to output-expression trees (accumulator recurrences, chunk idiom) + normal-form equality; raise-condition extraction"},
     "C03": {"engine": "E-SYM", "level": "other", "design_ref": "DESIGN.md section 4 C03 and section 11",
-            "text": "Conformance of the setfl file (class and public function) to the reference, of the potable route for all three target spellings, of the EAM builder's constructor binding and metadata defaults, and of Reference_Data precedence. " + _W,
+            "text": "Conformance of the setfl file (class and public function) to the reference, of the potable route for all three target spellings, of the EAM builder's constructor binding and metadata defaults (builder run through its public constructor on stand-ins of the parser views, form builder and reference data), the three comment lines of the header, and of Reference_Data precedence. " + _W,
             "note": _N, "technique": "abstract interpretation to output-expression trees with symbolic dictionary lookups + normal-form equality; abstract evaluation of builder and reference-data code"},
     "C04": {"engine": "E-SYM", "level": "other", "design_ref": "DESIGN.md section 4 C04 and section 11",
-            "text": "Index-role agreement of Finnis-Sinclair densities in the eam/fs and EEAM writers (tree equality with reference writers that state the consumer's convention), Excel columns, 'A->B' key parsing, FS builder nesting and zero filling, all on models with pairwise distinct opaque density functions so that any transposition changes a compared value.",
+            "text": "Index-role agreement of Finnis-Sinclair densities in the eam/fs and EEAM writers (tree equality with reference writers that state the consumer's convention), Excel columns, 'A->B' key parsing, FS builder nesting and zero filling (builder run through its public constructor; definitions are concrete tuples, some equal up to a range boundary or marker), all on models with pairwise distinct opaque density functions so that any transposition changes a compared value.",
             "note": _N + " The consumers' conventions are those restated in the property.", "technique": "abstract interpretation + index-role comparison (who subscripts whom) against reference writers"},
     "C05": {"engine": "E-SYM", "level": "other", "design_ref": "DESIGN.md section 4 C05 and section 11",
             "text": "Conformance of TABEAM/EEAM output (classes and public functions) to the reference, and an identity proof in n = len(eampots) that the declared function count equals the number of blocks counted in the implementation's own output tree (n(n+1)/2 sorted unordered pairs + n + n or n*n).",
             "note": _N, "technique": "abstract interpretation to output-expression trees + symbolic block counting (polynomial identity in n)"},
     "C17": {"engine": "E-SYM", "level": "other", "design_ref": "DESIGN.md section 4 C17 and section 11",
-            "text": "Effect-order rule over every registered tabulation class (11 today): in the abstract evaluation of write(fp) no evaluation of a user-supplied callable may follow (or share a loop with) a write that reaches fp; action_tabulate builds before it opens the file and writes to the file it opened; open_fp(name) of every class opens the named file for writing. Lazy generators are modelled as interleaving with their consumer.",
+            "text": "Effect-order rule over every registered tabulation class (11 today): in the abstract evaluation of write(fp) no evaluation of a user-supplied callable may follow (or share a loop with) a write that reaches fp; with every function role (pair, density, embedding, dipole, quadrupole) in turn made to fail, write() called twice on the same object emits nothing either time (no half-built state is kept); action_tabulate builds before it opens the file and writes to the file it opened; open_fp(name) of every class opens the named file for writing. Lazy generators are modelled as interleaving with their consumer.",
             "note": "trusted: the abstract evaluator's effect log (EVAL = call of an opaque user callable, WRITE = write on the file parameter; StringIO writes are local). Not decided: I/O errors, failures inside openpyxl.save.",
             "technique": "effect/ordering analysis (EVAL* WRITE* typestate) over inlined call graph with loop nesting"},
 }
@@ -51,7 +51,7 @@ CHECKS.update({
             "note": _N + " Accuracy of the h=1e-6 central difference and scipy's spline derivative are assumptions.",
             "technique": "symbolic differentiation + normal-form identity; Phi-tree (region) alignment"},
     "C08": {"engine": "E-SYM", "level": "proof", "design_ref": "DESIGN.md section 4 C08 and section 11",
-            "text": "Premise by dataflow (r, starts, markers only in comparisons), then exhaustive enumeration of every order type of (r, starts), marker assignment and listing permutation for k <= 3 (quick) / k <= 5 (thorough) ranges, evaluating the real constructor, sorted setter, _range_search, __call__, deriv, deriv2 abstractly against the stated selection; class selection of create_Multi_Range_Potential_Form over all availability patterns; potable default range and grammar alternative order.",
+            "text": "Premise by dataflow (r, starts, markers only in comparisons), then exhaustive enumeration of every order type of (r, starts), marker assignment and listing permutation for k <= 3 (quick) / k <= 5 (thorough) ranges, evaluating the real constructor, sorted setter and the public __call__/deriv/deriv2 abstractly against the stated selection (range i is the opaque function f_i, so the value names the selected range); class selection of create_Multi_Range_Potential_Form over all availability patterns; whole potable definitions from the text of a [Pair] entry (grammar evaluated through a model of pyparsing's combinators) to the built callable at probe separations: default range, marker binding, '>=' before '>', lone parts, two definitions sharing one builder.",
             "note": _N + " Exhaustive within the stated bound on the number of ranges.",
             "technique": "comparison-only dataflow premise + exhaustive finite-domain abstract evaluation (order types)"},
     "C10": {"engine": "E-SYM", "level": "other", "design_ref": "DESIGN.md section 4 C10 and section 11",
@@ -61,7 +61,7 @@ CHECKS.update({
             "text": "Exhaustive decision table (presence x sign of nr/dr/cutoff, both instances, 128 cases) of the [Tabulation] grid options, reached as potable reaches them (ConfigParser(text).tabulation on the configparser model) with symbolic positive values; rounding-safe quotient-to-count idiom on the normal form (rejects bare truncation and tolerances below the quotient's rounding error); defaults and grid-step definitions.",
             "note": _N, "technique": "finite-domain abstract evaluation + idiom rule on arithmetic normal forms"},
     "C13": {"engine": "E-SYM", "level": "other", "design_ref": "DESIGN.md section 4 C13 and section 11",
-            "text": "Exhaustive filter table (all include/exclude sets over {A,B,C,unknown}, one- and two-species keys, four views) evaluated abstractly with wrapt.ObjectProxy's attribute forwarding modelled, a multi-view history for isolation, exhaustiveness of overridden views, and the CLI's presence tests.",
+            "text": "Exhaustive filter table (all include/exclude sets over {A,B,C,unknown}, one- and two-species keys, four views) evaluated abstractly with wrapt.ObjectProxy's attribute forwarding modelled, a multi-view history for isolation (the views themselves, and both EAM builders run on several views of one parsed file in one evaluation, functools.lru_cache modelled), exhaustiveness of overridden views, and the CLI's presence tests evaluated from the registered console entry point on an argparse model.",
             "note": _N + " wrapt's documented rule (_self_ prefix) is modelled, not wrapt itself.", "technique": "finite-domain abstract evaluation with proxy-attribute (ownership) model; who-may-access lint"},
     "C19": {"engine": "E-SYM", "level": "other", "design_ref": "DESIGN.md section 4 C19 and section 11",
             "text": "GULP, ADP and funcfl writers: output-expression tree equality with reference writers; ADP factory slot binding; Excel workbooks evaluated on a recording openpyxl model with symbolic rows (first column = grid, labelled column = that label's function).",
@@ -73,14 +73,14 @@ _L = ("configparser, wrapt, cexprtk, openpyxl, numpy and scipy are not analysed:
 
 CHECKS.update({
     "C09": {"engine": "E-SYM", "level": "other", "design_ref": "DESIGN.md section 4 C09 and section 11",
-            "text": "Structural clauses of the model language only: modifier-to-combinator binding and reduction order, trans shift, parse-tree walker (ranges, nesting), grammar/consumer name agreement, builder argument order, positional parameter binding and mutual registration of custom formulas, signature parsing, documented modifiers/pymath names, every pymath wrapper forwarding its arguments in order to math.NAME, key normalisation and delimiters - each by abstract evaluation of the real functions on opaque arguments or by syntax-tree comparison. The semantics of cexprtk expressions and pyparsing matching are not decided.",
+            "text": "Structural clauses of the model language only: modifier-to-combinator binding and reduction order, trans shift, parse-tree walker (ranges, nesting), grammar/consumer name agreement, builder argument order, positional parameter binding and mutual registration of custom formulas, signature parsing, documented modifiers/pymath names, every pymath wrapper forwarding its arguments in order to math.NAME, key normalisation and delimiters - each by abstract evaluation of the real functions on opaque arguments or by syntax-tree comparison. Definitions are given as texts: the package's grammar construction is evaluated into a grammar tree and literal texts are matched by pyparsing's rules (sa/pyparsingmodel.py), so grammar and tree walker are checked together through ConfigParser's public properties. The semantics of cexprtk expressions are not decided.",
             "note": _N + " " + _L, "technique": "abstract interpretation over opaque operands + grammar/consumer name agreement on the syntax tree"},
     "C12": {"engine": "E-TAINT", "level": "other", "design_ref": "DESIGN.md section 4 C12 and section 11",
             "text": "Hash-order taint (unsorted set iteration -> containers -> fields/arguments/returns -> output effects) over the whole package with a must-flag positive example; shared-state rules (global statements, module/class-level containers, factory singletons, mutable defaults and the fields storing them); purity of custom-formula evaluation (unconditional re-binding, no call state; abstract evaluation of interleaved calls); write-once caches; nondeterminism sources.",
             "note": "trusted: the taint engine's propagation rules (sa/taint.py) and name-based call resolution (class-hierarchy analysis); dict/list order is deterministic, only set order depends on the hash seed. Not decided: bytes written inside openpyxl.",
             "technique": "field-based interprocedural taint analysis + effect/ownership lints + abstract evaluation of call histories"},
     "C14": {"engine": "E-SYM", "level": "other", "design_ref": "DESIGN.md section 4 C14 and section 11",
-            "text": "Overrides/removals/additions evaluated on the repository's real _RawConfigParser overrides over a model of configparser's base class: resulting file state equals the hand edit for every spelling of the key and presence scenario, rejections are the documented configuration errors; optionxform proved equal to the dictionary key transform for every key (symbolic string-transformation chains); CLI splitter on every delimiter pattern; option tables; --list-items/--item-value coverage of every section kind.",
+            "text": "Overrides/removals/additions evaluated on the repository's real _RawConfigParser overrides over a model of configparser's base class: resulting file state (items and their order) equals the hand edit for every spelling of the key, presence scenario and two-edit sequence on one item, rejections are the documented configuration errors; optionxform proved equal to the dictionary key transform for every key (symbolic string-transformation chains); the console entry point registered in setup.py run end to end on an argparse model: -e/-a/-r splitting on every delimiter pattern, later-wins / removal / addition tables, --list-items and --item-value output and exit status on a file with every section kind.",
             "note": _N + " " + _L, "technique": "finite-domain abstract evaluation over a library-contract model + symbolic equality of string-transform chains"},
     "C15": {"engine": "E-SYM", "level": "other", "design_ref": "DESIGN.md section 4 C15 and section 11",
             "text": "For a file with every section kind, every raw section view and every ConfigParser accessor is evaluated with and without a block of unreferenced variables named like options of each section and must agree; placeholders equal textual substitution; parser construction arguments; deny-list of default-merging parser APIs.",
@@ -93,7 +93,7 @@ CHECKS.update({
             "text": "Table form construction arguments (ext=1 only), derivative objects, xy de-interleaving on every parity, TableReader.getValue on every position of x for tables of 1..4 (thorough: 1..7) points with symbolic ordinates (comparison-only premise), DatReader on every class of input line, plotToFile and wrappers as output trees.",
             "note": _N + " scipy's interpolation property itself is an assumption.", "technique": "finite-domain abstract evaluation + output-tree equality"},
     "C20": {"engine": "E-SYM", "level": "other", "design_ref": "DESIGN.md section 4 C20 and section 11",
-            "text": "Every kind of duplication named in the property evaluated on the real parser overrides over the strict base-class model (whitespace variants, repeated sections), the constructor's reversed-pair and table-form-name checks, registry clashes in every role (table form vs formula vs built-in incl. forms registered last), repeated A->B densities; optionxform == dictionary transform for every key.",
+            "text": "Every kind of duplication named in the property evaluated on the real parser overrides over the strict base-class model (whitespace variants, repeated sections), the same item added twice, the constructor's reversed-pair (multi-character species, different lengths) and table-form-name checks, registry clashes in every role (table form vs formula vs built-in incl. forms registered last), repeated A->B densities; optionxform == dictionary transform for every key.",
             "note": _N + " " + _L, "technique": "finite-domain abstract evaluation over a library-contract model + symbolic transform equality"},
 })
 
